@@ -3450,8 +3450,14 @@ func (a Dimensions) Normalize() (time.Duration, []string) {
 	for _, dim := range a {
 		switch expr := dim.Expr.(type) {
 		case *Call:
-			lit, _ := expr.Args[0].(*DurationLiteral)
-			dur = lit.Val
+			// The parser accepts any call as a dimension: only a call whose
+			// first argument is a duration carries an interval.
+			if len(expr.Args) == 0 {
+				continue
+			}
+			if lit, ok := expr.Args[0].(*DurationLiteral); ok {
+				dur = lit.Val
+			}
 		case *VarRef:
 			tags = append(tags, expr.Val)
 		}
